@@ -827,8 +827,8 @@ pub fn queries(scope: Scope) -> Vec<Select> {
             modifiers(&small, &mut dec);
             push_all(dec, &mut out, &mut seen);
             // round 3: one of each new shared shape
-            let mut r3: Vec<Select> = bind_scope_bases().into_iter().step_by(9).map(all_vars_select).collect();
-            r3.extend(star_bases().into_iter().map(all_vars_select));
+            let mut r3: Vec<Select> = bind_scope_bases().into_iter().step_by(23).map(all_vars_select).collect();
+            r3.extend(star_bases().into_iter().skip(2).take(2).map(all_vars_select));
             push_all(r3, &mut out, &mut seen);
         }
         Scope::Quick | Scope::Thorough => {
